@@ -160,6 +160,12 @@ theorem C06_legacy_counterexample :
 
 example : Aligned demoState := by decide
 example : (Conn.mk true (some ⟨7, by decide⟩)).adminNow demoState := ⟨rfl, _, rfl, by decide⟩
+/-- connections the guard refuses: unverified, and a verified non-admin controller -/
+example : ¬ (Conn.mk false none).adminNow demoState := fun h => absurd h.1 (by decide)
+example : ¬ (Conn.mk true (some ⟨8, by decide⟩)).adminNow demoState := by
+  rintro ⟨_, u, hu, ha⟩
+  cases hu
+  exact absurd ha (by decide)
 /-- the repaired model refuses the same request and changes nothing -/
 example : handleAdd demoParse demoState [(tReq, [3]), (tUser, [66]), (tPub, [9, 9]), (tPerm, [1, 0])]
     = (demoState, err500, false) := by decide
